@@ -41,10 +41,15 @@ def _build(HERE, REPO):
     return os.path.join(HERE, ".work", "replay_target", "debug", "deltio-replay"), ""
 
 
-def _run_all(binary, args, timeout):
-    """-> (list of witnesses, text): every WITNESS line of the search (the rpc suite prints one per failing scenario)"""
+def _run_all(binary, args, timeout, prop=None):
+    """-> (list of witnesses, text): every WITNESS line of the search (the rpc suite prints one per failing scenario);
+    prop: the random searches keep going past inputs that contradict only other properties (VERIF_PROP)"""
     try:
-        p = subprocess.run([binary] + [str(a) for a in args], capture_output=True, text=True, timeout=timeout)
+        env = dict(os.environ)
+        env.pop("VERIF_PROP", None)
+        if prop:
+            env["VERIF_PROP"] = prop
+        p = subprocess.run([binary] + [str(a) for a in args], capture_output=True, text=True, timeout=timeout, env=env)
     except subprocess.TimeoutExpired:
         return [], "timeout"
     ws = []
@@ -100,7 +105,7 @@ def standin(prop, HERE, REPO, tier="quick", seed=0):
     for kind in kinds:
         q, th, bound = SEARCHES[kind]
         args = [str(a).replace("{seed}", str(seed + 1)) for a in (th if tier == "thorough" else q)]
-        ws, out = _run_all(binary, args, 600 if tier == "thorough" else 120)
+        ws, out = _run_all(binary, args, 600 if tier == "thorough" else 120, prop)
         runs.append({"search": " ".join(args), "bound": bound,
                      "result": ("WITNESS " + ", ".join("property=%s" % w.get("property") for w in ws)) if ws else out})
         if not ws and str(out).startswith(("ERROR", "timeout")):
@@ -120,8 +125,8 @@ def find_witness(prop, violation, HERE, REPO):
         r = standin(prop, HERE, REPO, "quick", s)
         if r.get("witness"):
             return r["witness"]
-        if r.get("other_property_witness") and s == seed + 2:
-            return r["other_property_witness"]
+    # an input on which the code contradicts ANOTHER property is that property's business (its own check reports it);
+    # it is never attached to an obligation of this property
     return None
 
 
